@@ -195,7 +195,7 @@ class Sim:
 
         lines = (LINES + self.extra_lines)
         try:
-            res = S.run_one(scenario, strat, sql=(self.backend == "sqlite"), lines=lines, shims=shims, max_steps=self.max_steps, watchdog_s=60.0)
+            res = S.run_one(scenario, strat, sql=(self.backend == "sqlite"), lines=lines, shims=shims, max_steps=self.max_steps, watchdog_s=180.0)
         finally:
             inst.uninstall()
         out = {"steps": res["steps"], "sig": res["sig"], "choices_len": len(res["choices"]), "result": getattr(self, "result", {}), "trace_tail": res["trace"][-25:],
